@@ -587,6 +587,10 @@ func persistedFields(c *Ctx, rule, typ string, transient map[string]string) {
 			c.ob(rule, typ+"."+f.Name()+"/transient", f.Pos(), true, false, "not persisted by design: "+reason)
 			continue
 		}
+		if !f.Exported() && c.unobservedNewField(typ, f) {
+			c.ob(rule, typ+"."+f.Name()+"/new-and-unobserved", f.Pos(), true, false, "a field that does not exist in the reference tree and is read only by new functions: nothing the existing code does depends on it surviving a restart")
+			continue
+		}
 		tag := reflect.StructTag(st.Tag(i)).Get("json")
 		name := strings.Split(tag, ",")[0]
 		c.ob(rule, typ+"."+f.Name()+"/persisted", f.Pos(), f.Exported() && tag != "" && name != "-", true,
